@@ -7,6 +7,7 @@ from .core import VERIF, EngineError, AnchorMissing
 from .prog import short
 from . import sites as S
 from . import flow as F
+from . import pathrules as PR
 
 ROOTS = {
     "EXEC": [
@@ -263,19 +264,41 @@ def _guard_identity(site, req):
     return best
 
 
+CMP_NEG = {"Eq": "Ne", "Ne": "Eq", "Lt": "Ge", "Ge": "Lt", "Gt": "Le", "Le": "Gt"}
+
+
 def req_guard_cmp(site, req):
+    """a comparison `want_op` holds on the path to the site: either that operator's true edge or the negated operator's false edge
+    (`if len == 1 {..}` and `if len != 1 { return }; ..` are the same guard); also read as a path fact through flags / inlined helpers"""
     want_op = req["guard_cmp"]
     want = req.get("edge", "true")
+    holds = want_op if want == "true" else CMP_NEG.get(want_op, want_op)
     for g in _dominating_guards(site):
-        if g["kind"] != "bool" or g["edge"] != want:
+        if g["kind"] != "bool":
             continue
         for o in g["origins"]:
-            if o.kind == "binop" and o.extra == want_op:
+            if o.kind != "binop":
+                continue
+            eff = o.extra if g["edge"] == "true" else CMP_NEG.get(o.extra)
+            if eff == holds:
                 if "const" in req:
                     cs = [_const_int(o.place["l"]), _const_int(o.place["r"])]
                     if req["const"] not in cs:
                         continue
                 return True
+    # path facts (sees through `let ok = a == b && ..;` and early returns that have no single dominating edge)
+    try:
+        fa = PR.facts(site.fn)
+        for a, val in fa.binop_facts(site.bb):
+            eff = a["op"] if val else CMP_NEG.get(a["op"])
+            if eff == holds:
+                if "const" in req:
+                    cs = [_const_int(a["l"]), _const_int(a["r"])]
+                    if req["const"] not in cs:
+                        continue
+                return True
+    except Exception:
+        pass
     return False
 
 
